@@ -62,6 +62,7 @@ def cases(tier, seed):
     # whole files whose supplemental TEXT segment is ill-formed: refused, not loaded without its keywords
     yield dict(kind='files-bad-stext', tier=tier)
     yield dict(kind='files-empty-stext', tier=tier)
+    yield dict(kind='files-raw-analysis', tier=tier)
     for delim in '/|\\, *~:;!#%&()+-.<=>?@[]^_`{}\'"' + 'aZ':   # not '$': standard keywords start with it
         yield dict(kind='files', delim=delim, tier=tier)
 
@@ -300,6 +301,54 @@ def run_case(c):
             res.violation('file-bad-stext:loaded', 'a file whose supplemental TEXT segment is %r (cannot be split into keyword/value pairs) was loaded; keywords beyond the primary ones: %r' % (
                 sraw, {k_: v for k_, v in dd.text.items() if k_ not in dict(info['primary_pairs'])}), one)
         res.sample({'ill-formed supplemental segments': len(bads), 'alphabet': '/ a b'})
+        return res
+    if k == 'files-raw-analysis':
+        # every short byte string over {primary delimiter, another delimiter-like symbol, a letter} as the ANALYSIS segment of a file: read
+        # as exactly the pairs it encodes under the file's delimiter, or not at all (an error, or the documented empty result) -- never
+        # as other pairs
+        import FlowCal
+        nfile = 0
+        for n in range(1, 6 if c.get('tier') == 'quick' else 8):
+            for t in itertools.product('/|a', repeat=n):
+                raw = ''.join(t)
+                if c.get('only') is not None and c['only'] != raw:
+                    continue
+                for an_off, version in (('header', 'FCS3.0'), ('header', 'FCS2.0'), ('text', 'FCS3.1')):
+                    lay = dict(version=version, datatype='I', byteord='1,2,3,4', bits=[16, 16], ranges=[1024, 1024], events=[[1, 2], [3, 4]], delim=D,
+                               extra=[('K1', 'v1')], analysis_raw=raw, analysis_offsets=an_off)
+                    buf, info = fcsgen.build(dict(lay))
+                    path = os.path.join(scratch(), 'c14a.fcs')
+                    with open(path, 'wb') as f:
+                        f.write(buf)
+                    nfile += 1
+                    one = dict(kind='files-raw-analysis', tier='thorough', only=raw)
+                    st, tokens, tol = textref.tokenize(raw, D, True)
+                    well = st == textref.ACCEPT and tokens is not None and len(tokens) % 2 == 0
+                    allowed = [dict(zip(tokens[0::2], tokens[1::2]))] if well else [{}]
+                    if st == textref.TOLERATED and tol is not None and len(tol) % 2 == 0:
+                        e2 = dict(zip(tol[0::2], tol[1::2]))
+                        allowed.append(e2)
+                        if tol:
+                            e3 = dict(e2)
+                            e3[tol[-2]] = e3[tol[-2]].rstrip(D)
+                            allowed.append(e3)
+                    try:
+                        with warnings.catch_warnings(record=True) as w:
+                            warnings.simplefilter('always')
+                            ff = FlowCal.io.FCSFile(path)
+                            got = dict(ff.analysis)
+                    except Exception:
+                        if well:
+                            res.violation('file-raw-analysis:refused', 'a file whose ANALYSIS segment %r encodes %r was refused' % (raw, allowed[0]), one)
+                        else:
+                            res.ok('file-raw-analysis:refused', True)
+                        continue
+                    if got in allowed:
+                        res.ok('file-raw-analysis:' + ('read' if well else 'empty'), True)
+                    else:
+                        res.violation('file-raw-analysis:repaired', 'a file (%s, ANALYSIS offsets in %s) whose ANALYSIS segment is %r (%s under the delimiter %r) was read with analysis %r' % (
+                            version, an_off.upper(), raw, 'encodes %r' % allowed[0] if well else 'cannot be split into keyword/value pairs', D, got), one)
+        res.sample({'raw ANALYSIS segments': nfile, 'alphabet': '/ | a'})
         return res
     if k == 'files-empty-stext':
         # a supplemental window that holds no keyword at all (reserved space filled with blanks, or no byte): the file reads as its
